@@ -201,7 +201,7 @@ pub fn property() -> Property {
             }),
             Box::new(Sub {
                 name: "real-codes",
-                rule: "the toolbox's own codes (DVB-S2 short 1/2 and 8/9, AR4JA k=1024 with punctured block), 2..=3 noisy frames around the threshold with alternating limits (iterating call, then limit 0) on one decoder per implementation (a third of the 36 names per case), each compared with a fresh decoder",
+                rule: "the toolbox's own codes (DVB-S2 short 1/2 and 8/9, AR4JA k=1024 with punctured block) and a synthetic staircase code of 70 600 bits, 2..=3 noisy frames around the threshold with alternating limits (iterating call, then limit 0) on one decoder per implementation (a third of the 36 names per case), each compared with a fresh decoder",
                 cases: |t| t.pick(32, 1_500),
                 strategy: super::realcodes::strategy,
                 check: super::realcodes::check_c10,
